@@ -27,11 +27,13 @@ func main() {
 	tier := fs.String("tier", "quick", "quick|thorough")
 	keep := fs.Bool("keep", false, "keep SMT queries")
 	verbose := fs.Bool("v", false, "verbose")
+	out := fs.String("out", "/verif", "directory for evidence/ and replays/ (default /verif)")
 	wl := fs.Bool("writelock", false, "record the discharged obligation ids of this run in obligations.lock.json (reference tree only)")
 	fs.Parse(os.Args[2:])
 	keepQueries = *keep
 	thoroughTier = *tier == "thorough"
 	writeLock = *wl
+	outDir = *out
 	// every invocation works in a scratch directory of its own (queries, dependency copy, go.mod
 	// overlay): concurrent checks must not see each other's files. -keep uses the base directory.
 	runDir := *work
